@@ -864,3 +864,36 @@ def P34(m, R):
             R.viol(f, call, 'a completed colour group is emitted without the range test that AnsiSetting.parsable applies (L%d: %s): parse_graphic_sequence("38;5;300") returns '
                             'the setting 38;5;300 although it promises parsable settings when erroneous items are dropped -- set_ansi_str keeps it, and after simplify() '
                             'is_formatting_parsable() is still False' % (ranged[0].lineno, short(ranged[0])), construct=cons)
+
+
+# ----------------------------------------------------------------------------------------------------------------------
+@rule('P35', 'setting-text: AnsiSetting.__init__ rejects an empty text, not a falsy argument -- the emptiness test sees the converted text '
+             '(the integer 0 is the reset setting that parse_graphic_sequence builds for ESC[m)', floor=1)
+def P35(m, R):
+    f = m.fn('AnsiSetting.__init__')
+    p = f.own_params()[0]
+    cons = 'emptiness test after conversion'
+    body = f.body
+    guards = [st for st in body if isinstance(st, ast.If) and any(isinstance(x, ast.Raise) and call_name(x.exc) == 'ValueError' for x in st.body) and
+              p in names_in(st.test)]
+    conv = [st for st in body if any(isinstance(x, ast.Assign) and is_name(x.targets[0], p) and isinstance(x.value, ast.Call) and call_name(x.value) == 'str'
+                                     and any(is_name(a_, p) for a_ in x.value.args) for x in ast.walk(st))]
+    if not guards:
+        R.ok(f, f.node, 'no emptiness test on the argument', construct=cons)
+        return
+    if not conv:
+        R.undecided(f, f.node, 'the conversion of an int argument to its text (%s = str(%s)) was not found' % (p, p), construct=cons)
+        return
+    g = guards[0]
+    # what does the test reject?  evaluated for the raw int 0 (falsy) and for its text '0' (truthy)
+    from ..finite import eval_guard, flag_valuation
+    rejects_falsy = eval_guard(g.test, flag_valuation({p: False}, {'%s == \'\'' % p: False, 'len(%s) == 0' % p: False, '%s is None' % p: False}))
+    before = body.index(g) < min(body.index(c_) for c_ in conv)
+    if before and rejects_falsy is True:
+        R.viol(f, g, 'the emptiness test `%s` comes before the argument is converted to text: the integer 0 is falsy and is rejected, although 0 is the reset '
+                     'setting -- AnsiSetting(0) raises ValueError, and so does AnsiString("a\\x1b[mb") (parse_graphic_sequence builds AnsiSetting(0) for ESC[m)'
+               % short(g.test), construct=cons)
+    elif before and rejects_falsy is None:
+        R.undecided(f, g, 'emptiness test %s before the conversion: what it rejects is not decided' % short(g.test), construct=cons)
+    else:
+        R.ok(f, g, 'the emptiness test is applied to the converted text', construct=cons)
